@@ -1106,6 +1106,8 @@ type printer struct {
 	funcs   map[string]bool
 	funcOrd []string
 	sorts   map[string]bool
+	lets    map[int]string // let-bound shared subterms inside the quantifier / definition being printed
+	cache   map[int]string // rendering of closed terms that were not hoisted
 }
 
 // Script renders an SMT-LIB script asserting every term in asserts.
@@ -1320,7 +1322,25 @@ func (p *printer) emit(t *Term) string {
 	if n, ok := p.named[t.ID]; ok {
 		return n
 	}
+	if n, ok := p.lets[t.ID]; ok {
+		return n
+	}
+	if !t.Bound {
+		if s, ok := p.cache[t.ID]; ok {
+			return s
+		}
+	}
 	s := p.render(t, p.emit)
+	if !t.Bound {
+		if p.cache == nil {
+			p.cache = map[int]string{}
+		}
+		defer func() {
+			if _, named := p.named[t.ID]; !named {
+				p.cache[t.ID] = s
+			}
+		}()
+	}
 	if !t.Bound && len(t.Args) > 0 && p.refs[t.ID] > 1 && len(s) > 24 {
 		n := fmt.Sprintf("$t%d", t.ID)
 		p.defs = append(p.defs, fmt.Sprintf("(define-fun %s () %s %s)\n", n, t.Sort, s))
@@ -1333,8 +1353,77 @@ func (p *printer) emit(t *Term) string {
 // inline prints without hoisting (function bodies).
 func (p *printer) inline(t *Term) string {
 	var rec func(t *Term) string
-	rec = func(t *Term) string { return p.render(t, rec) }
-	return rec(t)
+	rec = func(t *Term) string {
+		if n, ok := p.lets[t.ID]; ok {
+			return n
+		}
+		return p.render(t, rec)
+	}
+	shared := sharedBound(t)
+	if len(shared) == 0 {
+		return rec(t)
+	}
+	return p.withLets(shared, rec, func() string { return rec(t) })
+}
+
+// sharedBound lists (children before parents) the subterms of body that contain bound
+// variables, are referenced more than once and are not inside a nested quantifier.
+func sharedBound(body *Term) []*Term {
+	refs := map[int]int{}
+	byID := map[int]*Term{}
+	var walk func(t *Term)
+	walk = func(t *Term) {
+		if !t.Bound || len(t.Args) == 0 {
+			return
+		}
+		refs[t.ID]++
+		if refs[t.ID] > 1 {
+			return
+		}
+		byID[t.ID] = t
+		if t.Op == "forall" || t.Op == "exists" {
+			return
+		}
+		for _, a := range t.Args {
+			walk(a)
+		}
+	}
+	walk(body)
+	var ids []int
+	for id, n := range refs {
+		if n > 1 && byID[id].Op != "forall" && byID[id].Op != "exists" {
+			ids = append(ids, id)
+		}
+	}
+	sort.Ints(ids)
+	out := make([]*Term, len(ids))
+	for i, id := range ids {
+		out[i] = byID[id]
+	}
+	return out
+}
+
+// withLets renders body() under nested let-bindings for the shared subterms.
+func (p *printer) withLets(shared []*Term, sub func(*Term) string, body func() string) string {
+	saved := p.lets
+	p.lets = map[int]string{}
+	for k, v := range saved {
+		p.lets[k] = v
+	}
+	type bind struct{ name, def string }
+	var binds []bind
+	for _, s := range shared {
+		def := p.render(s, sub)
+		name := fmt.Sprintf("l%d", s.ID)
+		binds = append(binds, bind{name, def})
+		p.lets[s.ID] = name
+	}
+	out := body()
+	for i := len(binds) - 1; i >= 0; i-- {
+		out = fmt.Sprintf("(let ((%s %s)) %s)", binds[i].name, binds[i].def, out)
+	}
+	p.lets = saved
+	return out
 }
 
 func (p *printer) render(t *Term, sub func(*Term) string) string {
@@ -1382,7 +1471,12 @@ func (p *printer) render(t *Term, sub func(*Term) string) string {
 		for i, v := range t.Vars {
 			vs[i] = fmt.Sprintf("(%s %s)", smtSym(v.Name), v.Sort)
 		}
-		body := sub(t.Args[0])
+		var body string
+		if shared := sharedBound(t.Args[0]); len(shared) > 0 {
+			body = p.withLets(shared, sub, func() string { return sub(t.Args[0]) })
+		} else {
+			body = sub(t.Args[0])
+		}
 		if len(t.Pats) > 0 {
 			ps := make([]string, len(t.Pats))
 			for i, pt := range t.Pats {
